@@ -1671,8 +1671,9 @@ class LoopExpression(Expression):
             length = max(length - offset, 0)
         elif offset is not None:
             assert isinstance(offset, int), f"found {offset!r}"
-            # A negative offset starts from the beginning.
-            offset = max(offset, 0)
+            # A negative offset starts from the beginning, an offset past the end
+            # leaves nothing.
+            offset = min(max(offset, 0), length)
             length = max(length - offset, 0)
 
         if limit is not None:
